@@ -2,4 +2,3 @@ package main
 
 func genWidths()    {}
 func genMembers()   {}
-func genFacts()     {}
